@@ -160,6 +160,19 @@ class World:
             return {'status': 'raised', 'exc': 'RHSFault'}
         return observe.observe_frame(R)
 
+    def op_grid(self, op):
+        """pyrates.grid_search over one parameter of a (copy of a) circuit: a state-polluting op whose own result must not
+        depend on the process history either"""
+        from pyrates import grid_search
+        c = self.objs[op['obj']]
+        kw = _kw(op.get('kw', {}))
+        res, pmap = grid_search(c, {'k0': list(op['vals'])},
+                                {'k0': {'vars': [f"{op['opn']}/{op['var']}"], 'nodes': [op['node']]}},
+                                step_size=op['dt'], simulation_time=op['T'], outputs={'o': op['out']}, **kw)
+        obs = observe.observe_frame(res)
+        obs['pmap'] = {str(i): [float(x) for x in row] for i, row in zip(pmap.index, pmap.values)}
+        return obs
+
     def op_clear(self, op):
         from pyrates import clear
         clear(self.objs[op['obj']])
